@@ -1,34 +1,61 @@
 """C06 - validation results are deterministic under every thread schedule and count.
 
-(M)  Rng.tla: workers seed, then draw; a draw is the code's two steps (read the word, write Gen(word) back, re-reading it).
-     All interleavings for 2 workers x 2 draws and 3 workers x 1 draw.  With one word per thread StreamIsolation holds;
-     with the single global word TLC finds the 4-state counterexample (B seeds, A seeds, B reads A's word).
-     CvOrch.tla (shared with C05): merged seed offsets and merge order are independent of the thread count when it
-     divides the iteration count.
-(C)  GEN: TLC emits every complete schedule word of the model.  c06_drv forces each word onto the real worker threads of
-     BootstrapRandomGroupsCV (PLS / MLR / LDA) through the hook-H1 gate (a worker's first 2K+1 generator steps wait for its
-     letter), records every store to / copy out of the generator word with the real values, and the result hash.
-     TLC validates the recording against TraceRng.tla: every value a thread reads is the value that thread wrote last,
-     and the result equals the sequential run bit for bit.  Also: the y-scrambling pipeline with all RNG events of all
-     threads (the calling thread draws between worker batches), and bit-identity across thread counts (bootstrap: dividing
-     counts; LOO; k-fold).
+(M)  Rng.tla: every process runs a program over {seed, draw, fork, join}; a draw is the code's two steps (read the word, write
+     Gen(word) back, re-reading it); a draw on a word nobody seeded first stores the WALL CLOCK (numeric.c).  Orchestration shapes
+     transcribed from the library:  seedDraw (bootstrap CV worker with PLS/MLR/LDA; every routine that seeds and draws on the calling
+     thread), reseed (bootstrap CV worker with the EPLS learner: the group generator seeds, then every ensemble member re-seeds through
+     train_test_split), forkjoin (y-scrambling: the caller seeds, starts and joins CV workers, then draws its shuffle; KMeans/KMeans++/
+     EPLS called directly are the degenerate case with silent workers), unseeded (LeaveOneOut/KFoldCV worker with the EPLS random-subspace
+     learner: fresh thread, no srand_).  All interleavings for 2 workers x 2 draws, 3 workers x 1 draw, reseed 2-3 workers, fork/join
+     1 + 2.  With one word per thread StreamIsolation and NoClock hold; with the single global word TLC finds the counterexamples
+     (B seeds, A seeds, B reads A's word; the caller's draw after the join reads a worker's word); the unseeded shape violates NoClock.
+     CvOrch.tla (shared with C05): merged seed offsets and merge order are independent of the thread count when it divides the
+     iteration count.
+(C)  GEN: TLC emits every complete schedule word of the seedDraw and reseed models, and samples long words (simulation mode) whose forced
+     window reaches the first re-seed.  c06_drv forces each word onto the real worker threads of BootstrapRandomGroupsCV (PLS / MLR / LDA,
+     and - reported as EXTRA only, the property's quantifier names PLS, MLR, LDA - the three EPLS ensembles) through the hook-H1 gate,
+     records every srand_ call, every store to / copy out of the generator word with the real values, every read of the wall clock
+     (time() is interposed: the clock is a controlled input), and the result hash.  TLC validates the recording against TraceRng.tla:
+     every value a thread reads is the value that thread wrote last, no draw on a word the thread did not seed, the result equals the
+     sequential run bit for bit; implementation layer: the stream is the one the seed defines under the library's generator step
+     (exact 32-bit arithmetic on 16-bit limbs).
+     Every other routine that draws (mode direct): EPLS (bagging / fixed subspace / both), KMeans init 0 and 1, KMeansppCenters,
+     KMeansRandomGroupsCV, KMeansJumpMethod, PCARankValidation, UPLSRandomGroupsCV, UPLSYScrambling, StochasticUniversalSample,
+     RouletteWheelselection, train_test_split, random_kfold_group_generator, MatrixInitRandomInt/Float: hash of every output for thread
+     counts 1..8 (where the routine takes one), repeated runs, a run after the caller's stream was disturbed, a run on a fresh thread, under
+     an advancing clock - all must equal the first run; all of them draw on the calling thread only (their workers never touch the word),
+     so the caller's recorded stream must be the seeded stream.  Also: y-scrambling with all RNG events of all threads, bit-identity across
+     thread counts (bootstrap: dividing counts; LOO; k-fold), EPLS as CV learner for thread counts 1..8 (EXTRA).
 """
 import os, random, shutil
+from concurrent.futures import ThreadPoolExecutor
 from vf import build, tlc, trace
 from vf import run as hrun
 from vf.core import InfraError
 
 LEVEL = "model_checking"
 READY = True
-TECHNIQUE = ("TLC model checking of Rng.tla (all interleavings of seed/read/write steps, per-thread vs global word) + every TLC-generated schedule word "
-             "forced onto the real CV worker threads through the hook-H1 gate, recorded word values and result hashes validated by TLC (TraceRng.tla)")
-LEVEL_TEXT = ("All interleavings of the generator steps are explored in the model for 2 workers x 2 draws and 3 workers x 1 draw; every complete schedule "
-              "word TLC generates is then forced deterministically onto the real threads, so a stream shared between workers is exposed on the first schedule "
-              "that lets one worker seed between another's seed and first draw - not 1 run in 20. TLC checks stream isolation on the real word values and "
-              "bit-identity of the result with the sequential run; y-scrambling and thread-count sweeps are validated by the same trace specification.")
-LEVEL_NOTE = ("Trusts TLC and the H1 gate (points before-read / between read and write / after-write of the generator word). Only shared state observed by H1 is "
-              "decided; unsynchronised access to other memory is outside this technique (no happens-before detector is used). Schedules are forced for the first "
-              "2K+1 generator steps of 2-3 workers; later steps run free (still recorded and validated).")
+TECHNIQUE = ("TLC model checking of Rng.tla (all interleavings of seed/read/write steps for the orchestration shapes transcribed from the library: seed+draw workers, "
+             "re-seeding EPLS workers, fork/join caller, unseeded workers; per-thread vs global word) + every TLC-generated schedule word (plus sampled long words) "
+             "forced onto the real CV worker threads through the hook-H1 gate; recorded seeds, word values, wall-clock reads and result hashes of the CV schemes, "
+             "y-scrambling and every other routine that draws (EPLS, KMeans/KMeans++, KMeans/PCA/UPLS random-group validation, selection operators, splitters, "
+             "random matrix fill) validated by TLC (TraceRng.tla, exact 32-bit generator arithmetic)")
+LEVEL_TEXT = ("All interleavings of the generator steps are explored in the model for 2 workers x 2 draws, 3 workers x 1 draw, re-seeding workers (2 and 3) and the fork/join "
+              "caller; every complete schedule word TLC generates is then forced deterministically onto the real threads, so a stream shared between workers is exposed on "
+              "the first schedule that lets one worker seed between another's seed and first draw - not 1 run in 20. TLC checks stream isolation on the real word values, "
+              "that no thread draws from a word it did not seed (the library would take the wall clock, which the harness controls), and bit-identity of the result with "
+              "the sequential run; y-scrambling, thread-count sweeps (1..8) and all 18 directly called drawing routines are validated by the same trace specification.")
+LEVEL_NOTE = ("Trusts TLC and the H1 gate (points before-read / between read and write / after-write of the generator word) and the interposed time(). Only shared state "
+              "observed by H1 is decided; unsynchronised access to other memory is outside this technique (no happens-before detector is used). Schedules are forced for "
+              "the first Q generator steps of 2-3 workers (Q = 3..82); later steps run free (still recorded and validated). EPLS used as the learner inside the CV schemes "
+              "is outside the property's quantifier (PLS, MLR, LDA): deviations there are EXTRA-FINDINGs, not verdicts. ICA (randDouble without seeding) is not driven: "
+              "ica.c is debugging code (hard-wired data, sleep(2)).")
+
+W = max(1, int(os.environ.get("VERIF_WORKERS", "8")))
+ROUTINES = ["EPLS-bagging", "EPLS-subspace", "EPLS-bagging-subspace", "KMeans-random", "KMeans-pp", "KMeansppCenters", "KMeansRandomGroupsCV-random",
+            "KMeansRandomGroupsCV-pp", "KMeansJumpMethod", "PCARankValidation", "UPLSRandomGroupsCV", "UPLSYScrambling", "StochasticUniversalSample",
+            "RouletteWheelselection", "train_test_split", "random_kfold_group_generator", "MatrixInitRandomInt", "MatrixInitRandomFloat"]
+RNG_ACTIONS = ["DoSeed", "DoClock", "DoRead", "DoWrite", "DoFork", "DoJoin"]
 
 
 def _run_info(block):
@@ -41,56 +68,112 @@ def _run_info(block):
 def _sig(ev, block):
     run = _run_info(block)
     mode, algo = run.get("mode", "?"), run.get("algo", "?")
+    m0 = mode.split(":")[0]
+    tag = mode if m0 == "eplscv" else m0 if m0 not in ("direct", "unseeded") else "%s:%s" % (m0, algo)
     e = ev.get("e")
     if e == "Crash":
         return "RNG:crash:%s:%s:rc%s" % (ev.get("mode"), ev.get("algo"), ev.get("rc")), "run died or hung: %s" % ev
     if e == "Read":
-        return "RNG:isolation:%s" % mode.split(":")[0], ("thread %s read generator word %s which it did not write last: the seeded stream of one thread is perturbed by another "
-                                                         "(schedule %s, learner %s)" % (ev.get("w"), ev.get("v"), run.get("word"), algo))
+        return "RNG:isolation:%s" % tag, ("thread %s read generator word %s which it did not write last: the seeded stream of one thread is perturbed by another, or the thread "
+                                           "never seeded (schedule %s, %s)" % (ev.get("w"), ev.get("v"), run.get("word"), algo))
+    if e == "Clock":
+        return "RNG:clock:%s" % tag, ("thread %s took the wall clock as generator state (draw on a word it never seeded, or a seed taken from the clock): the result is not a "
+                                       "function of the inputs (%s, %s)" % (ev.get("w"), mode, algo))
     if e == "Result":
-        return "RNG:result-differs:%s" % mode.split(":")[0], "result differs from the sequential/reference run (%s, learner %s, schedule %s, threads %s)" % (
-            mode, algo, run.get("word"), ev.get("nth", run.get("nw")))
+        return "RNG:result-differs:%s" % tag, "result differs from the sequential/reference run (%s, %s, schedule %s, threads %s, repetition %s, fresh thread %s)" % (
+            mode, algo, run.get("word"), ev.get("nth", run.get("nw")), ev.get("rep"), ev.get("fresh"))
     return "RNG:trace:%s" % e, "unexpected event %s in %s" % (ev, run)
+
+
+def _is_extra_block(run_):
+    """blocks that exercise behaviour outside the statement/quantifier of C06: EPLS as the learner inside a CV scheme, calls without seeding"""
+    mode = run_.get("mode", "")
+    return mode.startswith("eplscv") or mode == "unseeded" or (mode == "sched" and str(run_.get("algo", "")).startswith("EPLS"))
 
 
 def run(ctx):
     q = ctx.quick
     ctx.assumptions += [
-        "only the generator word (observed by hook H1) is decided; no generic data-race detector is used",
-        "the gate forces the first 2K+1 generator steps of each of the first NW worker threads; workers are identified by order of arrival at srand_",
-        "results are compared through a 64-bit FNV hash of the prediction matrix bytes (bit-identity)",
+        "only the generator word (observed by hook H1) and the wall clock (interposed time()) are decided; no generic data-race detector is used",
+        "the gate forces the first Q generator steps of each of the first NW worker threads; workers are identified by order of arrival at srand_",
+        "results are compared through a 64-bit FNV hash of the bytes of every output (bit-identity)",
         "bootstrap thread counts are restricted to divisors of the iteration count, as the property states (CvOrch.tla shows why)",
+        "routines that do not seed themselves (EPLS subspace variants, KMeans, KMeansppCenters, KMeansJumpMethod) are called right after srand_(seed) by the caller - "
+        "the statement's 'after seeding'; the same calls without seeding are reported as EXTRA only",
+        "MatrixInitRandomInt/Float seed from the clock by contract: determinism is required for a fixed (interposed) clock",
+        "UPLS tensors are built with as many y columns as orders (UPLSYPredictor indexes y columns by the order count: memory-safety defect outside C06)",
     ]
-    # (M)
-    for cfg, label in [("MC_Rng_TRUE_2.cfg", "mc_rng_perthread_2x2"), ("MC_Rng_TRUE_3.cfg", "mc_rng_perthread_3x1")]:
-        r = tlc.run("Rng", cfg, timeout=900)
+    # ---------------- (M)
+    taken = set()
+    pool = ThreadPoolExecutor(max(1, min(W, 6)))
+    tw = 2 if W >= 4 else 1
+    mc_jobs = [("MC_Rng_TRUE_2.cfg", "mc_rng_perthread_2x2", None), ("MC_Rng_TRUE_3.cfg", "mc_rng_perthread_3x1", None),
+               ("MC_Rng_reseed_TRUE_2.cfg", "mc_rng_reseed_perthread_2x1", None), ("MC_Rng_reseed_TRUE_3.cfg", "mc_rng_reseed_perthread_3x1", None),
+               ("MC_Rng_forkjoin_TRUE.cfg", "mc_rng_forkjoin_perthread_1+2x2", None), ("MC_Rng_FALSE_2.cfg", "mc_rng_global_2x2", "StreamIsolation"),
+               ("MC_Rng_reseed_FALSE_2.cfg", "mc_rng_reseed_global_2x1", "StreamIsolation"), ("MC_Rng_forkjoin_FALSE.cfg", "mc_rng_forkjoin_global", "StreamIsolation"),
+               ("MC_Rng_unseeded.cfg", "mc_rng_unseeded", "NoClock")]
+    mc_fut = [pool.submit(tlc.run, "Rng", cfg, timeout=900, workers=tw) for cfg, label, expect in mc_jobs]
+    orch_fut = pool.submit(tlc.run, "CvOrch", "MC_CvOrch_boot.cfg", timeout=600, workers=tw)
+
+    def mc(cfg, label, expect, r):
         ctx.add_tlc(r, label)
-        if not r.ok:
-            raise InfraError("Rng.tla per-thread variant violates %s in the model:\n%s" % (r.violation, r.trace_text[:1200]))
-    rg = tlc.run("Rng", "MC_Rng_FALSE_2.cfg", timeout=900)
-    ctx.add_tlc(rg, "mc_rng_global_2x2")
-    if rg.ok:
-        raise InfraError("Rng.tla global-word variant unexpectedly satisfies StreamIsolation (model no longer discriminates)")
-    ctx.steps["mc_rng_global_2x2"]["expected_counterexample"] = rg.violation
-    for cfg, label in [("MC_CvOrch_boot.cfg", "mc_orch_boot")]:
-        r = tlc.run("CvOrch", cfg, timeout=600)
-        ctx.add_tlc(r, label)
-        if not r.ok:
-            raise InfraError("CvOrch.tla: %s" % r.violation)
-    # (GEN) schedule words
+        for a, (t, g) in r.coverage.items():
+            if t > 0:
+                taken.add(a)
+        if expect is None:
+            if not r.ok:
+                raise InfraError("Rng.tla %s violates %s in the model:\n%s" % (cfg, r.violation, r.trace_text[:1200]))
+        else:
+            if r.ok or r.violation != expect:
+                raise InfraError("Rng.tla %s: expected a counterexample to %s, got %s (model no longer discriminates)" % (cfg, expect, r.violation))
+            ctx.steps[label]["expected_counterexample"] = r.violation
+        return r
+    # (GEN) runs are started now as well; their results are consumed below
+    gen_specs = [("GEN_Rng_2_1.cfg", None), ("GEN_Rng_2_2.cfg", None), ("GEN_Rng_3_1.cfg", None), ("GEN_Rng_reseed_2_1.cfg", None),
+                 ("GEN_Rng_sim_2.cfg", 12 if q else 400), ("GEN_Rng_sim_3.cfg", 6 if q else 250)]
+    gen_fut = {}
+    for cfg, sim in gen_specs:
+        if sim:
+            gen_fut[cfg] = pool.submit(tlc.run, "Rng", cfg, timeout=900, coverage=False, workers=1, simulate="num=%d" % sim, depth=400, seed=ctx.seed + 11)
+        else:
+            gen_fut[cfg] = pool.submit(tlc.run, "Rng", cfg, timeout=900, coverage=False, workers=tw)
+    for (cfg, label, expect), f in zip(mc_jobs, mc_fut):
+        mc(cfg, label, expect, f.result())
+    missing = [a for a in RNG_ACTIONS if a not in taken]
+    if missing:
+        raise InfraError("Rng.tla actions never taken in any model-checking run: %s" % missing)
+    r = orch_fut.result()
+    ctx.add_tlc(r, "mc_orch_boot")
+    if not r.ok:
+        raise InfraError("CvOrch.tla: %s" % r.violation)
+    # ---------------- (GEN) schedule words
     rnd = random.Random(ctx.seed)
-    plans = []
-    for nw, k, take in ([(2, 1, None), (2, 2, 40), (3, 1, 40)] if q else [(2, 1, None), (2, 2, None), (3, 1, 600)]):
-        r = tlc.run("Rng", "GEN_Rng_%d_%d.cfg" % (nw, k), timeout=900, coverage=False)
-        ctx.add_tlc(r, "gen_sched_%dx%d" % (nw, k))
+
+    def gen(cfg, label, take, sim=None):
+        r = gen_fut[cfg].result()
+        ctx.add_tlc(r, label)
+        if any(not e["isolated"] for e in r.emits):
+            raise InfraError("%s: the per-thread model emitted a non-isolated behaviour" % cfg)
         words = sorted(set(tuple(e["sched"]) for e in r.emits))
         if not words:
-            raise InfraError("no schedule words generated")
+            raise InfraError("no schedule words generated by %s" % cfg)
         total = len(words)
         if take and take < len(words):
             rnd.shuffle(words)
             words = words[:take]
-        plans.append((nw, k, words, total))
+        return words, total
+    plans = []      # (label, nw, k, eplsset, words, total, sampled)
+    for nw, k, take in ([(2, 1, None), (2, 2, 40), (3, 1, 40)] if q else [(2, 1, None), (2, 2, None), (3, 1, 600)]):
+        words, total = gen("GEN_Rng_%d_%d.cfg" % (nw, k), "gen_sched_%dx%d" % (nw, k), take)
+        plans.append(("%dx%d" % (nw, k), nw, k, 0, words, total, False))
+        if (nw, k) == (2, 1):
+            plans.append(("epls:2x1", nw, k, 1, words, total, False))
+    words, total = gen("GEN_Rng_reseed_2_1.cfg", "gen_sched_reseed_2x1", 24 if q else None)
+    plans.append(("epls:reseed2x1", 2, 1, 1, words, total, False))
+    words, total = gen("GEN_Rng_sim_2.cfg", "gen_sched_sim_2x20", None, sim=12 if q else 400)
+    plans.append(("epls:sim2x20", 2, 20, 1, words, total, True))
+    words, total = gen("GEN_Rng_sim_3.cfg", "gen_sched_sim_3x10", None, sim=6 if q else 250)
+    plans.append(("epls:sim3x10", 3, 10, 1, words, total, True))
     lib = build.build_lib("plain")
     exe = build.build_harness("c06", ["c06_drv.c"], lib)
     rd = tlc.rundir()
@@ -101,15 +184,21 @@ def run(ctx):
         for i in range(1 if q else 4):
             jobs.append([os.path.join(rd, "n%d.ndjson" % i), "counts", ctx.seed + i, 9 if q else 18])
         jobs.append([os.path.join(rd, "st.ndjson"), "stress", ctx.seed + 5, 40 if q else 600])
-        for nw, k, words, total in plans:
+        nr = len(ROUTINES)
+        for i in range(2 if q else 30):       # every routine once per job
+            jobs.append([os.path.join(rd, "d%d.ndjson" % i), "direct", ctx.seed + 20 + i, nr, i * nr])
+        for i in range(1 if q else 8):
+            jobs.append([os.path.join(rd, "e%d.ndjson" % i), "eplscv", ctx.seed + 40 + i, 9 if q else 18])
+        for label, nw, k, eplsset, words, total, sampled in plans:
             chunk = max(1, (len(words) + 5) // 6)
             for ci in range(0, len(words), chunk):
-                sf = os.path.join(rd, "s_%d_%d_%d.txt" % (nw, k, ci))
+                tag = label.replace(":", "_")
+                sf = os.path.join(rd, "s_%s_%d.txt" % (tag, ci))
                 with open(sf, "w") as f:
                     for w in words[ci:ci + chunk]:
                         f.write(" ".join(map(str, w)) + "\n")
-                jobs.append([os.path.join(rd, "t_%d_%d_%d.ndjson" % (nw, k, ci)), "sched", ctx.seed + ci, sf, nw, k])
-        res = hrun.run_many(exe, jobs, timeout=2400, workers=10)
+                jobs.append([os.path.join(rd, "t_%s_%d.ndjson" % (tag, ci)), "sched", ctx.seed + ci, sf, nw, k, eplsset])
+        res = hrun.run_many(exe, jobs, timeout=2400, workers=min(W, 10))
         events = []
         for j, h in zip(jobs, res):
             ev = hrun.read_ndjson(j[0])
@@ -117,13 +206,63 @@ def run(ctx):
                 raise InfraError("schedule gate got stuck (no verdict): %s" % j[1:])
             if h.rc != 0:
                 raise InfraError("c06 harness failed rc=%d %s: %s" % (h.rc, j[1:], h.err[-1200:]))
+            if any(e.get("e") == "Overflow" for e in ev):
+                raise InfraError("event recorder overflowed in %s" % j[1:])
             events += ev
         if not any(e["e"] == "Read" for e in events):
             raise InfraError("no Read events: hook H1 is not firing (hooks removed or guard off)")
+        # routines that cannot be driven at all on this tree (crash on every input): outside the verdict, reported once
+        for e in events:
+            if e["e"] == "Broken":
+                ctx.extra("RNG:broken:%s" % e["algo"], "%s dies on every input (child status %s; with the random-groups validation it hands r2x = NULL to UPLSRandomGroupsCV, which "
+                          "dereferences it, upls.c:1448) - the drawing path of this routine cannot be driven; the leave-one-out path (which only seeds) is checked" % (e["algo"], e["rc"]))
+        events = [e for e in events if e["e"] != "Broken"]
         blocks = tlc.split_blocks(events)
+        main_blocks, extra_blocks = [], []
+        for b in blocks:
+            run_ = _run_info(b)
+            crash = [e for e in b if e["e"] == "Crash"]
+            if crash and (crash[0].get("mode") in ("direct", "unseeded", "eplscv") or _is_extra_block(run_)):
+                # a routine that dies or hangs on an input is not a determinism verdict (other properties own that): report, leave out
+                ctx.extra("RNG:crash:%s:%s" % (crash[0].get("mode"), crash[0].get("algo")), "run died or hung (status %s) and is left out of the verdict: %s" % (crash[0].get("rc"), run_ or crash[0]))
+                continue
+            (extra_blocks if _is_extra_block(run_) else main_blocks).append(b)
+        # ---- vacuity of the new harness paths
+        per = {}
+        for b in main_blocks + extra_blocks:
+            run_ = _run_info(b)
+            key = (run_.get("mode", "").split(":")[0], run_.get("algo"))
+            d = per.setdefault(key, dict(blocks=0, read=0, seed=0, clock=0, result=0, nonfinite=0, ts=run_.get("ts", 0)))
+            d["blocks"] += 1
+            for e in b:
+                if e["e"] == "Read":
+                    d["read"] += 1
+                elif e["e"] == "Seed":
+                    d["seed"] += 1
+                elif e["e"] == "Clock":
+                    d["clock"] += 1
+                elif e["e"] == "Result":
+                    d["result"] += 1
+                elif e["e"] == "Seq" and e.get("num", 1) > 0 and 2 * e.get("fin", 1) < e.get("num", 1):
+                    d["nonfinite"] += 1
+        for rt in ROUTINES:
+            d = per.get(("direct", rt))
+            if not d or d["result"] == 0 or (d["seed"] == 0 and d["read"] == 0):      # what the events say is for TLC to judge; here only: were there any
+                raise InfraError("direct routine %s produced no recorded run (blocks/seeds/reads/results: %s)" % (rt, d))
+            if rt.startswith("MatrixInitRandom") and d["clock"] == 0:
+                raise InfraError("no Clock event for %s: the time() interposer is not in effect" % rt)
+            if d["nonfinite"] * 2 > d["blocks"]:
+                raise InfraError("direct routine %s: most reference results are not finite (hash comparison would be vacuous)" % rt)
+        for key, d in per.items():
+            if key[0] in ("eplscv", "sched") and d["nonfinite"] * 2 > d["blocks"]:
+                raise InfraError("%s: most reference results are not finite (hash comparison would be vacuous): %s" % (key, d))
+        if not any(k[0] == "eplscv" and d["read"] > 0 for k, d in per.items()):
+            raise InfraError("eplscv mode recorded no draws")
+        # forced re-seeds: sampled long words must reach a worker's second srand_ inside the forced window
+        reseed_forced = 0
         alternating = 0
         addr_classes = set()
-        for b in blocks:
+        for b in main_blocks + extra_blocks:
             run_ = _run_info(b)
             word = tuple(run_.get("word", []))
             # non-trivial: some worker seeds between another worker's seed and that worker's first read
@@ -138,37 +277,140 @@ def run(ctx):
                         first[w] = i
                 nt = any(seeds[a] < seeds[b2] < first.get(a, 10 ** 6) for a in seeds for b2 in seeds if a != b2)
                 alternating += 1 if nt else 0
-            ctx.case((run_.get("mode"), run_.get("algo"), run_.get("n"), word, run_.get("nw")), nt)
+                qn = len(word) // max(1, run_.get("nw", 1))
+                steps, nseed, hit = {}, {}, False
+                for e in b:
+                    if e["e"] == "Seed" and e["w"] >= 1:
+                        nseed[e["w"]] = nseed.get(e["w"], 0) + 1
+                        if nseed[e["w"]] == 2 and steps.get(e["w"], 0) < qn:
+                            hit = True
+                    elif e["e"] in ("Wrote", "Read") and e["w"] >= 1:
+                        steps[e["w"]] = steps.get(e["w"], 0) + 1
+                reseed_forced += 1 if hit else 0
+            ctx.case((run_.get("mode"), run_.get("algo"), run_.get("n"), run_.get("p"), run_.get("nlv"), word, run_.get("nw")), nt)
             for e in b:
                 if e["e"] == "Result" and e.get("addrs"):
                     addr_classes.add(e["addrs"])
-        ctx.cov["schedule_words"] = {"%dx%d" % (nw, k): dict(generated=total, forced=len(words)) for nw, k, words, total in plans}
-        ctx.cov["exhaustive"] = all(total == len(words) for nw, k, words, total in plans)
+        ctx.cov["schedule_words"] = {label: dict(generated=total, forced=len(words), sampled=sampled) for label, nw, k, es, words, total, sampled in plans}
+        ctx.cov["exhaustive"] = all(total == len(words) for label, nw, k, es, words, total, sampled in plans if not sampled)
         ctx.cov["implemented_variant"] = "perThread" if addr_classes and max(addr_classes) > 1 else "global"
-        ctx.cov["rule"] = ("a case is one recorded run: a TLC-generated schedule word forced on the real bootstrap CV (learner cycles PLS/MLR/LDA), a y-scrambling run, or a thread-count "
-                           "sweep; non-trivial schedule = some worker seeds between another worker's seed and its first draw (%d such words)" % alternating)
-        for b in blocks[:400]:
+        ctx.cov["forced_reseeds"] = reseed_forced
+        ctx.cov["routines_driven"] = {"%s:%s" % k: d for k, d in sorted(per.items(), key=lambda kv: str(kv[0]))}
+        ctx.cov["rule"] = ("a case is one recorded run block: a TLC-generated schedule word forced on the real bootstrap CV (learner cycles PLS/MLR/LDA, and the three EPLS ensembles), "
+                           "a y-scrambling run, a thread-count sweep, a directly called drawing routine (threads 1..8 x 2 repetitions + fresh thread), or EPLS as CV learner; "
+                           "non-trivial schedule = some worker seeds between another worker's seed and its first draw (%d such words; %d words forced a re-seed)" % (alternating, reseed_forced))
+        for b in main_blocks[:400]:
             run_ = _run_info(b)
-            if run_.get("mode") == "sched":
-                ctx.sample(dict(run=run_, events=[e for e in b if e["e"] in ("Wrote", "Read")][:8]), 3)
+            if run_.get("mode") in ("sched", "direct"):
+                ctx.sample(dict(run=run_, events=[e for e in b if e["e"] in ("Seed", "Wrote", "Read")][:8]), 4)
+
+        def small(block):
+            rec = ("Seed", "Wrote", "Read", "Clock")
+            return [e for e in block if e["e"] not in rec] + [e for e in block if e["e"] in rec][:60]
 
         def on_reject(ev, idx, block):
             sig, what = _sig(ev, block)
-            small = [e for e in block if e["e"] != "Wrote" and e["e"] != "Read"] + [e for e in block if e["e"] in ("Wrote", "Read")][:60]
             known = any(v[0] == sig for v in ctx.violations) or sig in ctx.known_hits
-            ctx.violation(sig, what, dict(kind="block", run=_run_info(block), event=ev, block=small))
+            ctx.violation(sig, what, dict(kind="block", run=_run_info(block), event=ev, block=small(block)))
             return "dup" if known else None
-        trace.check_trace(ctx, "TraceRng", "Trace_Rng.cfg", "Trace_Rng_prop.cfg", events, on_reject, drop="block", max_rounds=60, label="trace_rng", xmx="8g")
-        ctx.traces(len(blocks))
 
-        def corrupt(evs):
-            for e in evs:
-                if e["e"] == "Read":
-                    e["v"] = "12345"
-                    return True
-            return False
-        trace.binding_selftest(ctx, "TraceRng", "Trace_Rng.cfg", blocks[0], corrupt, "binding_read")
+        def on_reject_extra(ev, idx, block):
+            sig, what = _sig(ev, block)
+            run_ = _run_info(block)
+            if run_.get("mode") == "unseeded":
+                sig = "RNG:clock:unseeded-call"
+                what = ("routines that draw from the caller's stream (EPLS subspace variants, KMeans, KMeansppCenters, KMeansJumpMethod) take the wall clock as generator state when "
+                        "the caller never called srand_ on that thread (numeric.c:68): results then differ from run to run - by design of the fallback; first seen: %s" % run_.get("algo"))
+            else:
+                # group the findings of one cause: scheme x ensemble method
+                sig = sig + ":" + str(run_.get("algo"))
+                what += " [EPLS is outside the quantifier of C06 (PLS, MLR, LDA)]"
+            ctx.extra(sig, what)
+            return None
+        main_events = [e for b in main_blocks for e in b]
+        extra_events = [e for b in extra_blocks for e in b]
+        trace.check_trace(ctx, "TraceRng", "Trace_Rng.cfg", "Trace_Rng_prop.cfg", main_events, on_reject, drop="block", max_rounds=60, label="trace_rng", xmx="8g")
+        ctx.traces(len(main_blocks))
+        if extra_blocks:
+            # blocks outside the statement are EXPECTED to contain rejections (one TLC round each): validate the groups side by side, then merge in order
+            groups = {}
+            for b in extra_blocks:
+                run_ = _run_info(b)
+                groups.setdefault((run_.get("mode"), run_.get("algo")), []).extend(b)
+
+            class Rec:
+                def __init__(self):
+                    self.calls = []
+
+                def add_tlc(self, r, label=None):
+                    self.calls.append(("tlc", r, label))
+
+                def note(self, m):
+                    self.calls.append(("note", m))
+
+                def spec_drift(self, m):
+                    self.calls.append(("drift", m))
+
+            def one(key, evs):
+                rec = Rec()
+
+                def rej(ev, idx, block):
+                    rec.calls.append(("rej", ev, block))
+                    return None
+                trace.check_trace(rec, "TraceRng", "Trace_Rng.cfg", "Trace_Rng_prop.cfg", evs, rej, drop="block", max_rounds=400, label="trace_rng_extra:%s:%s" % key, xmx="3g")
+                return rec
+            futs = [(key, pool.submit(one, key, evs)) for key, evs in sorted(groups.items(), key=lambda kv: str(kv[0]))]
+            for key, f in futs:
+                for c in f.result().calls:
+                    if c[0] == "tlc":
+                        ctx.add_tlc(c[1], None)
+                        st = ctx.steps.setdefault("trace_rng_extra", dict(distinct=0, generated=0, wall_s=0.0, runs=0))
+                        st["distinct"] += c[1].distinct
+                        st["generated"] += c[1].generated
+                        st["wall_s"] = round(st["wall_s"] + c[1].wall, 2)
+                        st["runs"] += 1
+                    elif c[0] == "note":
+                        ctx.note(c[1])
+                    elif c[0] == "drift":
+                        ctx.spec_drift(c[1])
+                    else:
+                        on_reject_extra(c[1], 0, c[2])
+            ctx.traces(len(extra_blocks))
+
+        if reseed_forced == 0 and not ctx.violations:
+            # (with a violation on record the run fails anyway: a change that removed the re-seed is then a verdict, not an infrastructure problem)
+            raise InfraError("no forced schedule reached a worker's re-seed inside the forced window (EPLS learner): the reseed shape is not exercised on the code")
+        # ---- binding self-tests: one corrupted field per event kind must be rejected
+        def first_block(pred):
+            for b in main_blocks:
+                if pred(_run_info(b), b):
+                    return b
+            raise InfraError("binding self-test: no suitable block")
+
+        def corrupt_field(kind, field, value, nth=0):
+            def f(evs):
+                k = 0
+                for e in evs:
+                    if e["e"] == kind:
+                        if k == nth:
+                            e[field] = value
+                            return True
+                        k += 1
+                return False
+            return f
+        b_sched = first_block(lambda r, b: r.get("mode") == "sched" and any(e["e"] == "Read" for e in b))
+        trace.binding_selftest(ctx, "TraceRng", "Trace_Rng.cfg", b_sched, corrupt_field("Read", "v", [1, 2345]), "binding_read")
+        trace.binding_selftest(ctx, "TraceRng", "Trace_Rng.cfg", b_sched, corrupt_field("Seed", "s", [7, 7]), "binding_seed")
+        b_dir = first_block(lambda r, b: r.get("mode") == "direct" and r.get("algo") == "KMeans-pp" and any(e["e"] == "Read" for e in b))
+        trace.binding_selftest(ctx, "TraceRng", "Trace_Rng.cfg", b_dir, corrupt_field("Result", "h", [1, 2, 3], nth=3), "binding_result_direct")
+        trace.binding_selftest(ctx, "TraceRng", "Trace_Rng.cfg", b_dir, corrupt_field("Read", "w", 5), "binding_caller_only")
+        trace.binding_selftest(ctx, "TraceRng", "Trace_Rng.cfg", b_dir, corrupt_field("Wrote", "v", [3, 3], nth=2), "binding_wrote_gen")
+        b_clk = first_block(lambda r, b: r.get("mode") == "direct" and r.get("ts") == 1 and any(e["e"] == "Clock" for e in b))
+        trace.binding_selftest(ctx, "TraceRng", "Trace_Rng_prop.cfg", b_clk, corrupt_field("Run", "ts", 0), "binding_clock")
+        if not any(e["e"] == "Clear" for e in b_dir):
+            raise InfraError("no Clear event in a direct block")
     finally:
+        pool.shutdown(wait=False)
         shutil.rmtree(rd, ignore_errors=True)
 
 
